@@ -578,6 +578,8 @@ type world struct {
 	fe   frontend
 	ct   *countTracker
 	name string
+	// model-side counts of direct operations on the real backend (C18)
+	extDeleted, extExpired, prepWrites, prefailWrites int
 }
 
 func newWorld(c *Case, cfg foCfg) *world {
@@ -585,8 +587,13 @@ func newWorld(c *Case, cfg foCfg) *world {
 	w.s = newSched(c, w.log)
 
 	kind := []string{kindSharded, kindSync, kindShardedOf}[cfg.variant]
+	var realStats cache.StatsTracker
+	if cfg.stats {
+		realStats = w.ct
+	}
+
 	w.be = newCaseBackend(c, kind, cache.Config{
-		Name: "real", TimeToLive: cfg.backendTTL, ExpirationJitter: -1,
+		Name: "real", Stats: realStats, TimeToLive: cfg.backendTTL, ExpirationJitter: -1,
 		DeleteExpiredJobInterval: farFuture, DeleteExpiredAfter: farFuture, ItemsCountReportInterval: farFuture,
 	})
 
@@ -930,9 +937,14 @@ func (w *world) runSchedule(gets []*getSpec, o ctlOpts) bool {
 			if c.Bool("ext-kind") && len(gets) > 0 {
 				k := gets[c.Pick("ext-key", len(gets))].key
 				err := w.be.Delete(bg, k)
+				if err == nil {
+					w.extDeleted++
+				}
+
 				c.Tracef("[%d] external Delete(%s) = %v", s.step, keyName(k), err)
 				c.Class("external-delete")
 			} else {
+				w.extExpired += w.be.Len()
 				w.be.ExpireAll(bg)
 				c.Tracef("[%d] external ExpireAll", s.step)
 				c.Class("external-expireall")
